@@ -16,7 +16,7 @@ import os, sys, json, time, shutil, contextlib, io
 from pathlib import Path
 import core
 from core import Result
-from props import c01_objs as O, c01_gen as G, c01_cycle as C, c01_wire as W
+from props import c01_objs as O, c01_gen as G, c01_cycle as C, c01_wire as W, c01_fortran as FW
 
 ID = 'C01'
 MODULE = 'PyTough.Props.C01'
@@ -304,6 +304,46 @@ def run_shipped(ctx, res, batches, big=True):
         flush(res, batches, ctx)
 
 
+def run_fortran(ctx, res, n, batches):
+    """files produced by the independent Fortran-style writer: what is read must be what the text denotes"""
+    import t2data as T
+    rng = ctx.rng('fortran_writer')
+    for i in range(n):
+        cfg = {'flavour': 'TOUGH2', 'mesh': 'in', 'xp': None, 'echo': None}
+        spec = FW.fortranise(G.gen_spec(rng, cfg))
+        if rng.random() < 0.3: spec['plusplus'] = True
+        tmp = ctx.tmp / ('f%d' % i)
+        tmp.mkdir(parents=True, exist_ok=True)
+        path = tmp / 'fortran.dat'
+        path.write_text(FW.fortran_file(spec))
+        case = {'fortran_spec': spec}
+        res.evaluations += 1
+        res.count('fortran-written-file')
+        res.distinct.add('fortran:' + case_key(dict(spec, parameter=dict(spec['parameter'])), cfg))
+        try:
+            with O.quiet():
+                B = T.t2data(str(path))
+        except Exception as e:
+            res.violations.append(dict(key='raises:read-fortran:%s' % type(e).__name__,
+                                       what='reading a Fortran-written file raises %s: %s' % (type(e).__name__, str(e)[:200]), case=case))
+            continue
+        want = O.canon(spec, cfg)
+        got = O.normalise_dump(O.dump(B))
+        for pth, w, g in O.diff(want, got)[:4]:
+            res.violations.append(dict(key='fortran-content:' + C.key_of(pth),
+                                       what='a Fortran-written file gives %s = %r, the text denotes %r' % (pth, g, w), case=case))
+        viol, info = C.cycle(None, cfg, tmp / 'cyc', origin=(str(path), ''), record=ctx.model_ok)
+        for v in viol: v['case'] = case
+        res.violations += viol
+        if ctx.model_ok and info.get('events'):
+            ev = list(info['events'])
+            ev.insert(0, dict(op='read', dir=str(tmp), main='fortran.dat', mesh='in', obj=ev[0]['obj'], fortran=False))
+            batches.append(({'fortran': i, 'seed': ctx.seed}, ev))
+        if len(batches) >= 30 or not ctx.model_ok:
+            flush(res, batches, ctx)
+    flush(res, batches, ctx)
+
+
 def run(ctx, only_oracle=False):
     reload_real()
     res = Result()
@@ -317,6 +357,7 @@ def run(ctx, only_oracle=False):
     run_corpus(ctx, res, batches)
     run_shipped(ctx, res, batches, big=True)
     run_generated(ctx, res, ctx.n(220, 4000), 't2data_rw', batches)
+    run_fortran(ctx, res, ctx.n(40, 600), batches)
     flush(res, batches, ctx)
     res.exhaustive = False
     return res
@@ -342,7 +383,23 @@ def search(ctx, seconds, res):
 def replay(ctx, payload):
     reload_real()
     c = payload.get('case') or {}
-    if 'spec' in c:
+    if 'fortran_spec' in c:
+        import t2data as T
+        spec = c['fortran_spec']
+        cfg = {'flavour': 'TOUGH2', 'mesh': 'in', 'xp': None, 'echo': None}
+        d = ctx.tmp / 'replay'
+        d.mkdir(parents=True, exist_ok=True)
+        (d / 'fortran.dat').write_text(FW.fortran_file(spec))
+        viol = []
+        try:
+            with O.quiet():
+                B = T.t2data(str(d / 'fortran.dat'))
+            for pth, w, g in O.diff(O.canon(spec, cfg), O.normalise_dump(O.dump(B)))[:4]:
+                viol.append(dict(what='a Fortran-written file gives %s = %r, the text denotes %r' % (pth, g, w)))
+            viol += C.cycle(None, cfg, d / 'cyc', origin=(str(d / 'fortran.dat'), ''))[0]
+        except Exception as e:
+            viol.append(dict(what='reading a Fortran-written file raises %s' % type(e).__name__))
+    elif 'spec' in c:
         viol, info = C.cycle(c['spec'], c['cfg'], ctx.tmp / 'replay')
     elif 'file' in c:
         from fixed_format_file import fortran_read_function
